@@ -691,6 +691,8 @@ def gate_pool(g: G.Gen, rng):
     add("Toffoli", C(0, C(1, dg.X(2))), C(0, Mx(cn, [1, 2])), C(1, C(0, dg.X(2))))
     add("Toffoli-relphase", C(0, Mx(1j * cn, [1, 2])), C(0, Mx(np.exp(0.3j) * cn, [1, 2])))
     add("CI", C(0, dg.I(1)), C(0, dg.I(2)), C(0, Mx(np.eye(4), [1, 2])))
+    # a controlled pure phase (target: rotation by 0 with a phase) is the phase gate on the control, not the identity
+    add("CPhase0.7", C(0, B(1, (0, 0, 1), 0.0, 0.7)), C(0, B(1, (1, 0, 0), 0.0, 0.7)), C(0, B(2, (0, 1, 0), 2 * pi, 0.7 + pi)))
     # identity operations on disjoint operand sets (same operation on the union, also up to a global phase)
     add("I-disjoint", Mx(np.eye(4), [0, 1]), Mx(1j * np.eye(4), [2, 3]), C(2, dg.I(3)), C(1, dg.I(0)), Mx(np.eye(8), [4, 2, 0]))
     add("CZ23", dg.CZ(2, 3))
@@ -875,14 +877,39 @@ def pipeline_pool():
     pipes = [[("merge",)], [("decompose", "CNOT"), ("merge",), ("decompose", "McKay")], [("decompose", "ZYZ")], [("map", "rev"), ("decompose", "XYX"), ("merge",)],
              [("replace", "CNOT"), ("merge",), ("decompose", "YXY")], [("decompose", "McKay"), ("map", "cycle")],
              [("merge",), ("map", "cycle")], [("merge",), ("map", "cycle"), ("decompose", "ZYZ"), ("merge",)]]
-    return [(s, p) for s in src for p in pipes]
+    pool = [(s, p) for s in src for p in pipes]
+    # sources that differ from one another only in what a hidden memo could confuse: variable layouts with the same names and the
+    # same total size, bare resets on registers of different size, angles that agree to seven decimals, the I gate, measurements
+    # into re-used bits, and circuits whose schedule export fails after a measurement was already visited
+    extra = [
+        "version 3.0\nqubit[2] a\nqubit[3] b\nbit[2] m\nX b[0]\nCNOT a[1], b[2]\nm[1] = measure b[1]\nRz(0.3) a[0]\n",
+        "version 3.0\nqubit[3] a\nqubit[2] b\nbit[2] m\nX b[0]\nCNOT a[1], b[1]\nm[1] = measure b[1]\nRz(0.3) a[0]\n",
+        "version 3.0\nqubit[5] q\nX90 q[4]\nreset\nY q[1]\n",
+        "version 3.0\nqubit[3] q\nX90 q[2]\nreset\nY q[1]\n",
+        "version 3.0\nqubit[2] q\nRx(0.12345674) q[0]\nRy(0.5) q[0]\nCZ q[0], q[1]\nRz(2.00000004) q[1]\n",
+        "version 3.0\nqubit[2] q\nRx(0.12345671) q[0]\nRy(0.5) q[0]\nCZ q[0], q[1]\nRz(2.00000001) q[1]\n",
+        "version 3.0\nqubit[3] q\nI q[0]\nI q[2]\nX q[1]\nCNOT q[2], q[0]\nI q[1]\n",
+        "version 3.0\nqubit[2] q\nbit[1] b\nX q[0]\nb[0] = measure q[0]\nb[0] = measure q[1]\nY90 q[1]\nb[0] = measure q[0]\n",
+        "version 3.0\nqubit[2] q\nbit[2] b\nb[0] = measure q[0]\nb[1] = measure q[0]\nH q[1]\nb[0] = measure q[0]\n",
+    ]
+    xp = [[], [("merge",)], [("map", "rev")], [("decompose", "ZYZ")], [("merge",), ("map", "cycle"), ("decompose", "XYX")]]
+    pool += [(s, p) for s in extra for p in xp]
+    return pool
 
 def compile_one(src, pipe):
+    """text of the compiled circuit followed by its other outward views (cQASM 1, schedule, interaction graph); an export that is
+    refused is recorded by the type of the error"""
     from opensquirrel import Circuit
     c = Circuit.from_string(src)
     st = {"perm": list(range(c.qubit_register_size)), "comments_dropped": False}
     for p in pipe: c = apply_pass(c, p, st)
-    return str(c), c
+    views = [str(c)]
+    for f in (lambda: O.impl_exportv1(None, circ=c), lambda: O.impl_sched(None, circ=c), lambda: O.impl_graph(W.w_circuit(c))):
+        try:
+            r = f(); views.append(json.dumps(r["v"] if r["err"] is None else {"error": r["err"]}, sort_keys=True, default=str))
+        except Exception as ex:
+            views.append("raised " + type(ex).__name__)
+    return "\n----\n".join(views), c
 
 def snapshot_globals():
     import opensquirrel.default_gates as dg, opensquirrel.default_measures as dm, opensquirrel.default_resets as dr
@@ -1078,6 +1105,20 @@ def check_C19(run: Run):
                 exp = [spec_map_stmt(s, {i: idx[i] for i in range(k)}) for s in ws["stmts"]]
                 d = W.diff(exp, wb["stmts"], 1e-9)
                 if d: run.violation(f"the result on a register of {reg} qubits differs from the small-register run: {d}", {"reg": reg, "seq": seq, "base": base, "idx": idx})
+        # the front ends on a very large register: declaration and a handful of statements, cost follows the statements
+        from opensquirrel import Circuit as _C19, CircuitBuilder as _CB19
+        for reg in (1000, 100000):
+            src = f"version 3.0\nqubit[{reg}] q\nbit[{reg}] b\nH q[0]\nCNOT q[0], q[{reg - 1}]\nRz(0.25) q[{reg // 2}]\nb[{reg - 1}] = measure q[{reg - 1}]\n"
+            t0 = time.time()
+            try:
+                c_ = _C19.from_string(src); txt_ = str(c_)
+                b_ = _CB19(reg, reg); b_.H(0); b_.CNOT(0, reg - 1); c2_ = b_.to_circuit()
+            except Exception as ex:
+                run.violation(f"parsing / building on a register of {reg} qubits raised {O.err_name(ex)}", {"reg": reg}); continue
+            dt = time.time() - t0
+            run.count({"front-end": reg}, tag=f"reg{reg}")
+            if dt > 20: run.violation(f"parsing, writing and building a 4-statement program on {reg} qubits took {dt:.1f}s", {"reg": reg})
+            if len(c_.ir.statements) != 4: run.violation(f"program on {reg} qubits parsed to {len(c_.ir.statements)} statements", {"reg": reg})
     finally:
         mx.MatrixExpander = orig_cls
     # model side: dimensions of the matrices the model builds for checks are 2^(operands)
